@@ -85,6 +85,7 @@ func (e *Engine) dispatch(fr *Frame, st *State, d deferred, site ssa.Instruction
 			panic(pathEnd{"nil invoke"})
 		}
 		if op, ok := iv.val.(*OpaqueV); ok {
+			e.forceArgs(fr, c, d.args)
 			return e.opaqueMethod(st, iv, op, c.Method.Name(), d.args, site)
 		}
 		fn := e.prog.LookupMethod(iv.typ, c.Method.Pkg(), c.Method.Name())
@@ -98,6 +99,9 @@ func (e *Engine) dispatch(fr *Frame, st *State, d deferred, site ssa.Instruction
 	if !ok {
 		panic(unsupported(fmt.Sprintf("call of %T", d.fn)))
 	}
+	if fv.fn != nil && e.findIntrinsic(fv.fn) != nil {
+		e.forceArgs(fr, c, d.args)
+	}
 	if fv.fn == nil {
 		if strings.HasPrefix(fv.name, "builtin:") {
 			return e.builtin(fr, st, fv.name[8:], d.args, c, site)
@@ -109,6 +113,18 @@ func (e *Engine) dispatch(fr *Frame, st *State, d deferred, site ssa.Instruction
 		panic(pathEnd{"nil func"})
 	}
 	return e.callFn(st, fv.fn, d.args, fv.bind, site)
+}
+
+// forceArgs forks on guarded-union arguments (intrinsics want concrete alternatives).
+func (e *Engine) forceArgs(fr *Frame, c *ssa.CallCommon, args []Value) {
+	for i, a := range args {
+		if ch, ok := a.(*ChoiceV); ok && i < len(c.Args) {
+			if _, isLocal := fr.info.idx[c.Args[i]]; isLocal {
+				panic(forkReq{target: c.Args[i], alts: ch.alts})
+			}
+			panic(unsupported("guarded-union argument that is not a local"))
+		}
+	}
 }
 
 func (e *Engine) inHarnessFile(fn *ssa.Function) bool {
@@ -168,6 +184,26 @@ func (e *Engine) callFn(st *State, fn *ssa.Function, args []Value, bind []Value,
 		if o.st.splits != entrySplits {
 			mergeOK = false
 		}
+	}
+	if mergeOK && len(outs) > 1 && !e.cfg.NoPrune {
+		// drop outcomes whose path condition is infeasible, so that merged values do not
+		// carry dead alternatives
+		live := outs[:0:0]
+		for _, o := range outs {
+			if o.st.pc == entryPC {
+				live = append(live, o)
+				continue
+			}
+			e.sync(o.st.pc)
+			r := e.solver.Check()
+			if r == Unknown {
+				e.rep.Unknowns++
+			}
+			if r != Unsat {
+				live = append(live, o)
+			}
+		}
+		outs = live
 	}
 	if mergeOK && len(outs) > 1 {
 		if m, ok := e.mergeOutcomes(entryPC, entryTape, entryObs, nPending, mark, outs); ok {
